@@ -407,6 +407,11 @@ def run(rep, repo, tier):
   if n11 < 30:
     raise AnalysisError("instance-count only %d per-channel axis points" %
                         n11)
+  # a frozen post-training scale keeps its per-channel layout through the
+  # configuration (shared with C09 R9)
+  from .c09 import rule_array_layout
+  if rule_array_layout(rep, repo, repo.module(quant.QMOD), rule="R12") < 4:
+    raise AnalysisError("instance-count frozen-scale layouts")
   from .c04 import rule_call_is_pure
   n9 = rule_call_is_pure(rep, repo, [
       ("quantized_bits", dict(bits=4, integer=1, alpha="auto")),
